@@ -306,11 +306,22 @@ def prov_filter(ctx):
 
     # with_whitelist / from_iter
     e, b = _body_sx(f, SL + "::with_whitelist", r)
-    ok = e[0] == "call" and e[1].endswith("::from_iter") and "symbol_size::SymbolList as" in e[1] and e[2][0][:2] == ("var", "whitelist")
+    def collects(x, var):
+        """from_iter(var) / var.into_iter().collect()"""
+        if x[0] == "call" and x[1].endswith("::from_iter") and len(x[2]) == 1:
+            return x[2][0][:2] == ("var", var)
+        if x[0] == "call" and x[1].endswith("Iterator::collect") and len(x[2]) == 1:
+            y = x[2][0]
+            while y[0] == "call" and y[1].endswith("into_iter") and len(y[2]) == 1:
+                y = y[2][0]
+            return y[:2] == ("var", var)
+        return False
+    wl_param = b["params"][0]["pat"]["name"].split("#")[0] if b["params"] and b["params"][0].get("pat", {}).get("k") == "Bind" else "whitelist"
+    ok = (e[0] == "call" and e[1].endswith("::from_iter") and "symbol_size::SymbolList as" in e[1] and e[2][0][:2] == ("var", wl_param)) or collects(e, wl_param)
     ob("with_whitelist", ok, "with_whitelist() collects exactly its argument", b, T.sx_show(e))
     e, b = _body_sx(f, "<symbol_size::SymbolList as core::iter::FromIterator<symbol_size::SymbolSize>>::from_iter", r)
-    ok = e[0] == "adt" and e[1] == SL and e[3][0][0] == "symbols" and e[3][0][1][0] == "call" \
-        and e[3][0][1][1].endswith("::from_iter") and e[3][0][1][2][0][:2] == ("var", "iter")
+    it_param = b["params"][0]["pat"]["name"].split("#")[0] if b["params"] and b["params"][0].get("pat", {}).get("k") == "Bind" else "iter"
+    ok = e[0] == "adt" and e[1] == SL and e[3][0][0] == "symbols" and collects(e[3][0][1], it_param)
     ob("from_iter", ok, "FromIterator builds the set from exactly the given iterator", b, T.sx_show(e))
 
     # retain-based filters
@@ -384,6 +395,9 @@ def prov_filter(ctx):
     pn = [p_["pat"]["name"].split("#")[0] for p_ in b["params"][1:2] if p_.get("pat", {}).get("k") == "Bind"]
     pn = pn[0] if pn else "size_needed"
     fnd = None
+    if e[0] == "call" and e[1] == "core::iter::Iterator::find" and e[2][0] == ("call", SL + "::iter", (e[2][0][2][0],)) and e[2][0][2][0][:2] == ("var", "self"):
+        # self.iter() is the copying set iterator (obligation `iter` below)
+        fnd = ("call", e[1], (("call", "alloc::collections::BTreeSet::iter", (("field", e[2][0][2][0], "symbols"),)), e[2][1]))
     if e[0] == "call" and e[1].endswith("Option::copied"):
         fnd = e[2][0]
     elif e[0] == "call" and e[1] == "core::iter::Iterator::find" and e[2][0][0] == "call" and e[2][0][1].endswith("Iterator::copied"):
@@ -435,6 +449,20 @@ def prov_filter(ctx):
     if ok:
         ce, _ = _closure_sx(f, mp[0][2][1][1], r)
         ok = ce[0] == "field" and ce[2] == "max" and ce[1][0] == "call" and ce[1][1] == SS + "::capacity"
+    if not ok and e[0] == "call" and e[1].endswith("Iterator::fold") and len(e[2]) == 3 and e[2][1] == ("lit", 0) and e[2][2][0] == "closure":
+        # .fold(0, |largest, s| largest.max(s.capacity().max))
+        src = e[2][0]
+        while src[0] == "call" and (src[1].endswith("BTreeSet::iter") or src[1].endswith("into_iter")):
+            src = src[2][0]
+        cb2 = T.closure_body_sx(f, e[2][2][1])
+        if _is_symbols_of_self(src) and cb2 and len(cb2[0]) == 2:
+            accn, evn = [n.split("#")[0] for n in cb2[0]]
+            c2 = cb2[1]
+            if c2[0] == "call" and c2[1].split("::")[-1] == "max" and len(c2[2]) == 2:
+                parts = list(c2[2])
+                is_acc = [p0[:2] == ("var", accn) for p0 in parts]
+                is_cap2 = [p0[0] == "field" and p0[2] == "max" and p0[1][0] == "call" and p0[1][1] == SS + "::capacity" and p0[1][2][0][:2] == ("var", evn) for p0 in parts]
+                ok = any(is_acc) and any(is_cap2)
     if not ok:
         # running maximum: let mut m = 0; for s in &self.symbols { if cap(s).max >= m (or >) { m = cap(s).max } } m
         ms = T.stmts(b["body"], {})
